@@ -52,18 +52,19 @@ type driver struct {
 	obs    []sx.S
 
 	// the server's own bookkeeping, used by the direct oracles
-	awaiting  map[uint16]uint32        // tag -> call whose frame carried it, not yet answered
-	live      map[uint32]*peer.Pending // calls that have not returned (as far as the script knows)
-	tagOf     map[uint32]uint16
-	abandoned []uint16 // tags of cancelled calls, not yet answered
-	nextCall  uint32
-	nextRid   uint32
-	maxLive   int
-	nreq      int
-	reordered bool
-	failed    bool
-	noCase    bool // the rest of the history is checked by the direct oracles only
-	label     string
+	awaiting             map[uint16]uint32        // tag -> call whose frame carried it, not yet answered
+	live                 map[uint32]*peer.Pending // calls that have not returned (as far as the script knows)
+	tagOf                map[uint32]uint16
+	abandoned            []uint16 // tags of cancelled calls, not yet answered
+	nextCall             uint32
+	nextRid              uint32
+	maxLive              int
+	nreq                 int
+	reordered            bool
+	failed               bool
+	writtenThenCancelled int
+	noCase               bool // the rest of the history is checked by the direct oracles only
+	label                string
 }
 
 func newDriver(r *rep.Report, rng *prng.R) *driver {
@@ -205,10 +206,20 @@ const (
 
 // replyTag sends a reply with the given tag.  If the tag's call is pending the
 // reply must come back out of that call.
-func (d *driver) replyTag(tag uint16, kind int) {
-	if d.failed {
-		return
-	}
+// sentReply is one reply the peer has built: who must get it and what it carries.
+type sentReply struct {
+	tag   uint16
+	c     uint32
+	p     *peer.Pending // nil: nobody is waiting (abandoned call's tag)
+	kind  int
+	mt    uint8
+	ty    uint8
+	rid   uint32
+	raw   []byte
+	known bool
+}
+
+func (d *driver) buildReply(tag uint16, kind int) sentReply {
 	c, known := d.awaiting[tag]
 	p := d.live[c]
 	rid := d.nextRid
@@ -231,43 +242,198 @@ func (d *driver) replyTag(tag uint16, kind int) {
 			}
 		}
 	}
-	if err := d.peer.Send(peer.Reply(tag, ty, rid)); err != nil {
-		d.fail("harness.send", "writing a reply to the client failed: "+err.Error())
-		return
+	return sentReply{tag: tag, c: c, p: p, kind: kind, mt: mt, ty: ty, rid: rid, raw: peer.Reply(tag, ty, rid), known: known}
+}
+
+// afterReply records the reply as an event and, if a call is waiting for it,
+// waits for that call and checks what it returned.
+func (d *driver) afterReply(r sentReply) {
+	d.events = append(d.events, sx.L(sx.Sym("resp"), sx.U(uint64(r.tag)), sx.U(uint64(r.ty)), sx.U(uint64(r.rid))))
+	if r.known {
+		delete(d.awaiting, r.tag)
 	}
-	d.events = append(d.events, sx.L(sx.Sym("resp"), sx.U(uint64(tag)), sx.U(uint64(ty)), sx.U(uint64(rid))))
-	if known {
-		delete(d.awaiting, tag)
-	}
-	if p == nil || !known {
+	if r.p == nil || !r.known {
 		d.obs = append(d.obs, sx.Sym("none"))
 		return
 	}
-	res, ok := p.Await()
+	res, ok := r.p.Await()
 	if !ok {
-		d.fail("transport.send:no-return", fmt.Sprintf("call %d did not return although a reply with its tag %d was sent", c, tag))
+		d.fail("transport.send:no-return", fmt.Sprintf("call %d did not return although a reply with its tag %d was sent", r.c, r.tag))
 		return
 	}
-	delete(d.live, c)
-	d.obs = append(d.obs, sx.L(sx.Sym("d"), sx.U(uint64(c)), res.Sexp()))
+	delete(d.live, r.c)
+	d.obs = append(d.obs, sx.L(sx.Sym("d"), sx.U(uint64(r.c)), res.Sexp()))
 	// direct oracle: the call returns exactly what this reply carried
-	want := peer.Result{Class: "ok", ID: rid}
+	want := peer.Result{Class: "ok", ID: r.rid}
 	switch {
-	case kind == kRerror:
-		want = peer.Result{Class: "rerror", ID: rid}
-	case kind == kWrong:
+	case r.kind == kRerror:
+		want = peer.Result{Class: "rerror", ID: r.rid}
+	case r.kind == kWrong:
 		want = peer.Result{Class: "unexpected"}
-	case !peer.HasPayload(mt):
+	case !peer.HasPayload(r.mt):
 		want.ID = 0
 	}
 	if res.Class != want.Class || res.ID != want.ID {
 		key := "transport.handle:misdelivered-reply"
-		if kind == kRerror {
+		if res.Class == "corrupt" {
+			key = "transport.reply:payload-corrupted"
+		} else if r.kind == kRerror {
 			key = "transport.send:rerror-not-the-calls-error"
-		} else if kind == kWrong {
+		} else if r.kind == kWrong {
 			key = "csession:wrong-type-reply-not-an-error"
 		}
-		d.fail(key, fmt.Sprintf("call %d (request type %d, tag %d) was answered with type %d payload %d and returned %s %d %q; expected %s %d", c, mt, tag, ty, rid, res.Class, res.ID, res.Text, want.Class, want.ID))
+		d.fail(key, fmt.Sprintf("call %d (request type %d, tag %d) was answered with type %d payload %d and returned %s %d %q; expected %s %d", r.c, r.mt, r.tag, r.ty, r.rid, res.Class, res.ID, res.Text, want.Class, want.ID))
+	}
+}
+
+// replyTag sends a reply with the given tag.  If the tag's call is pending the
+// reply must come back out of that call.
+func (d *driver) replyTag(tag uint16, kind int) {
+	if d.failed {
+		return
+	}
+	r := d.buildReply(tag, kind)
+	if err := d.peer.Send(r.raw); err != nil {
+		d.fail("harness.send", "writing a reply to the client failed: "+err.Error())
+		return
+	}
+	d.afterReply(r)
+}
+
+// replyMany answers up to n pending calls (PRNG-chosen, any kind) with ALL the
+// reply frames in ONE write: the client's reader decodes them back to back,
+// each into the same read buffer, while the earlier callers are still waking
+// up.  Every caller must nevertheless get its own payload, byte for byte.
+func (d *driver) replyMany(n int) {
+	if d.failed {
+		return
+	}
+	l := d.liveList()
+	for i := len(l) - 1; i > 0; i-- {
+		j := d.rng.Intn(i + 1)
+		l[i], l[j] = l[j], l[i]
+	}
+	if len(l) > n {
+		l = l[:n]
+	}
+	if len(l) < 2 {
+		return
+	}
+	d.reordered = true
+	var rs []sentReply
+	var chunk []byte
+	for _, c := range l {
+		kind := d.randKind()
+		if d.live[c].MT == 116 && d.rng.Chance(3, 4) {
+			kind = kRight // Rread carries the large payload
+		}
+		r := d.buildReply(d.tagOf[c], kind)
+		rs = append(rs, r)
+		chunk = append(chunk, r.raw...)
+	}
+	if err := d.peer.Send(chunk); err != nil {
+		d.fail("harness.send", "writing replies to the client failed: "+err.Error())
+		return
+	}
+	for _, r := range rs {
+		if d.failed {
+			return
+		}
+		d.afterReply(r)
+	}
+}
+
+// writeThenCancel: the peer stops reading, call A's frame blocks inside the
+// connection's Write, A's own context is cancelled, the peer reads again and
+// the write completes.  The frame HAS reached the peer, which never answers
+// it: its tag must stay outstanding (and be skipped after a wrap).  A probe
+// call C tells which of the possible histories happened.
+func (d *driver) writeThenCancel() {
+	if d.failed {
+		return
+	}
+	const settle = 40 * time.Millisecond
+	d.peer.PauseAfterNext()
+	paused := true
+	resume := func() {
+		if paused {
+			d.peer.Resume()
+			paused = false
+		}
+	}
+	defer resume()
+	d.req(120, false) // taken by the read already under way
+	if d.failed {
+		return
+	}
+	t0 := d.tagOf[d.nextCall-1]
+	idA := d.nextCall
+	d.nextCall++
+	mtA := peer.Methods[d.rng.Intn(len(peer.Methods))]
+	pA := peer.Start(d.ctx, d.sess, mtA, idA, false)
+	time.Sleep(settle)
+	pA.Cancel()
+	resA, ok := pA.Await()
+	if !ok {
+		d.fail("transport.send:no-return-on-own-ctx", fmt.Sprintf("call %d (its write blocked by a peer that stopped reading) did not return after its own context was cancelled", idA))
+		return
+	}
+	resume()
+	idC := d.nextCall
+	d.nextCall++
+	mtC := peer.Methods[d.rng.Intn(len(peer.Methods))]
+	pC := peer.Start(d.ctx, d.sess, mtC, idC, false)
+	f, err := d.peer.NextFrame()
+	if err != nil {
+		d.fail("transport.handle:no-frame", fmt.Sprintf("after the peer resumed reading: %v", err))
+		return
+	}
+	cancelEv := func() {
+		d.events = append(d.events, sx.L(sx.Sym("cancel"), sx.U(uint64(idA))))
+		d.obs = append(d.obs, sx.L(sx.Sym("d"), sx.U(uint64(idA)), resA.Sexp()))
+	}
+	step := func(name string, o sx.S, args ...sx.S) {
+		d.events = append(d.events, sx.L(append([]sx.S{sx.Sym(name)}, args...)...))
+		d.obs = append(d.obs, o)
+	}
+	none := sx.Sym("none")
+	written := f.Fid == idA
+	if written {
+		// A's frame was on its way when the context ended, and arrived
+		step("q", none, sx.U(uint64(idA)), sx.U(uint64(mtA)))
+		step("hand", none)
+		cancelEv()
+		d.onFrame(f, idA, mtA) // the peer has it and will never answer: awaiting for good
+		step("wrote", sx.L(sx.Sym("f"), sx.U(uint64(f.Tag))))
+		if f, err = d.peer.NextFrame(); err != nil {
+			d.fail("transport.handle:no-frame", fmt.Sprintf("call %d: %v", idC, err))
+			return
+		}
+	}
+	if f.Fid != idC || f.Type != mtC {
+		d.fail("transport.handle:wrong-frame", fmt.Sprintf("expected the frame of call %d, got fid %d type %d", idC, f.Fid, f.Type))
+		return
+	}
+	if !written {
+		switch f.Tag {
+		case t0 + 2: // A had been given a tag, its write was refused on entry (context already over)
+			step("q", none, sx.U(uint64(idA)), sx.U(uint64(mtA)))
+			step("hand", none)
+			cancelEv()
+			step("wfail", none)
+		default: // A's context ended before the loop took the request
+			cancelEv()
+		}
+	}
+	d.live[idC] = pC
+	d.onFrame(f, idC, mtC)
+	d.events = append(d.events, sx.L(sx.Sym("req"), sx.U(uint64(idC)), sx.U(uint64(mtC)), sx.I(1)))
+	d.obs = append(d.obs, sx.L(sx.Sym("f"), sx.U(uint64(f.Tag))))
+	if resA.Class != "ctx" {
+		d.fail("transport.send:own-ctx-result", fmt.Sprintf("call %d: own context cancelled, returned %s %q", idA, resA.Class, resA.Text))
+	}
+	if written {
+		d.writtenThenCancelled++
 	}
 }
 
@@ -451,8 +617,10 @@ func schedule(r *rep.Report, rng *prng.R, racy bool) {
 			}
 		case x < 50:
 			d.req(110, true) // oversized Twalk: WriteFcall fails, the tag goes back
-		case x < 80:
+		case x < 72:
 			d.replyLive(d.randKind())
+		case x < 80:
+			d.replyMany(d.rng.Range(2, 8))
 		case x < 88:
 			d.cancel()
 		case x < 94:
@@ -472,6 +640,10 @@ func wrapHistory(r *rep.Report, rng *prng.R, total int, deplete bool) (requests 
 		d.label = "wrap:deplete"
 	}
 	long := func() int { return len(d.live) + len(d.abandoned) }
+	// requests the peer has received and never answers, their callers gone while the write was under way
+	for i := 0; i < 4 && !d.failed; i++ {
+		d.writeThenCancel()
+	}
 	for d.nreq < total && !d.failed {
 		d.burst(rng.Range(1, 4000), peer.Methods[rng.Intn(len(peer.Methods))])
 		n := rng.Range(0, 250)
@@ -482,7 +654,11 @@ func wrapHistory(r *rep.Report, rng *prng.R, total int, deplete bool) (requests 
 			case x < 7:
 				d.cancel()
 			case x < 8:
-				d.replyLive(d.randKind())
+				if rng.Chance(1, 3) {
+					d.replyMany(rng.Range(2, 6))
+				} else {
+					d.replyLive(d.randKind())
+				}
 			case x < 9:
 				d.replyAbandoned()
 			default:
@@ -529,6 +705,7 @@ func wrapHistory(r *rep.Report, rng *prng.R, total int, deplete bool) (requests 
 		}
 	}
 	requests = d.nreq
+	d.r.Extra["wrap_frames_written_while_cancelled"] = d.writtenThenCancelled
 	d.finish(true)
 	return
 }
